@@ -138,7 +138,7 @@ func drawRe(t *rapid.T, alphabet []rune, depth int) *ref.Re {
 var uniAlphabet = []rune{'x', 'y', 'z'}
 
 // HostileAlphabet is used where values may be arbitrary text.
-var HostileAlphabet = []rune{'a', 'b', 'x', '"', '\\', '\n', ' ', '{', '}', ',', '=', '~', '!', '\'', '`', '.', '*', '世', 'é', '\t', '|', '(', ')', '[', ']', '$', '^', '+', '?', '-', 'n'}
+var HostileAlphabet = []rune{'a', 'b', 'x', '"', '\\', '\n', ' ', '{', '}', ',', '=', '~', '!', '\'', '`', '.', '*', '世', 'é', '\t', '|', '(', ')', '[', ']', '$', '^', '+', '?', '-', 'n', '\uFFFD'} // U+FFFD: a valid code point that decoders also use as their error value
 
 var Ops = []string{"=", "!=", "=~", "!~"}
 
